@@ -2,7 +2,7 @@
 EXTENDS Introspect
 
 cMNames == <<"a", "b">>
-cINames == {"t.A", "t.B"}
+cINames == {"t.A", "t.AB"}
 
 NS == {"a", "b"}
 M(i, o) == [p |-> TRUE, ins |-> i, outs |-> o]
